@@ -98,7 +98,10 @@ def relJudge : List String → Option String
     let why :=
       (if a then [] else
         ["id-token:" ++
-          (if idt .aud != some (.strs [client]) then "aud-not-exactly-the-client" else "iss/sub/nonce/exp")]) ++
+          (if idt .aud != some (.strs [client]) then "aud-not-exactly-the-client"
+           else if (match idt .exp with | some (.num e) => decide (e ≤ expMax) | _ => false) == false then
+             "expires-later-than-16h-after-authorization"
+           else "iss/sub/nonce")]) ++
       (if b then [] else ["access-token"])
     pure (if a && b then "ok" else "viol " ++ ",".intercalate why)
   | _ => none
